@@ -180,7 +180,16 @@ def run_stream_case(case):
                     dict(rep, stream_hex='', cuts=[cut])))
         break
     return (n, n, n, res)
-  r = segx.explore_stream(kind, stream, 1)
+  offsets = None
+  if len(stream) > 250:
+    # long items: all cut positions within 8 bytes of an item boundary, plus every 29th byte
+    bounds = []
+    o = 0
+    for it in stream_items:
+      o += len(it)
+      bounds.append(o)
+    offsets = sorted(set(p for b in [0] + bounds for p in range(b - 8, b + 9)) | set(range(1, len(stream), 29)))
+  r = segx.explore_stream(kind, stream, 1, offsets)
   rep['stream_hex'] = stream.hex()
   out = []
   if r['divergence'] is not None:
@@ -250,6 +259,41 @@ def run_opcode_shard(arg):
       _one(idxs, ops, names, proto, r, classes, out, seen_keys)
       n += 1
   return (n, len(classes), out)
+
+
+def run_opcode_neighbours(arg):
+  """valid frame, opcode-program frame, valid frame on ONE connection: the neighbours must be delivered exactly
+  as if the program frame were alone (no state of the unpickler may leak from one frame into the next)."""
+  first, length = arg
+  env.boot()
+  ops = [b for _, b in pk.OPCODES]
+  names = [n for n, _ in pk.OPCODES]
+  f1 = wire.pickle_frame([V1])
+  f3 = wire.pickle_frame([V3])
+  e1, e3 = expected([V1]), expected([V3])
+  n = 0
+  out = []
+  progs = []
+  for L in range(1, length + 1):
+    if L == 1:
+      if first == 0:
+        progs += [(i,) for i in range(len(ops))]
+      continue
+    progs += [(first,) + t for t in itertools.product(range(len(ops)), repeat=L - 1)]
+  for idxs in progs:
+    prog = b''.join(ops[i] for i in idxs) + b'.'
+    alone = segx.run_cuts('pickle', frame(prog), [])
+    d_alone = list(alone.sh['delivered'])
+    if alone.exc is not None:
+      continue          # reported by the escape check
+    r = segx.run_cuts('pickle', f1 + frame(prog) + f3, [])
+    got = list(r.sh['delivered'])
+    n += 1
+    if r.exc is None and got != e1 + d_alone + e3 and len(out) < 3:
+      out.append(('frame-state-leak', 'frames [valid, %s STOP, valid] on one connection delivered %r; the program frame alone delivers %r, so '
+                  '%r was expected' % (' '.join(names[i] for i in idxs), got, d_alone, e1 + d_alone + e3),
+                  {'kind': 'pickle', 'stream_hex': (f1 + frame(prog) + f3).hex(), 'cuts': [], 'malformed': ['opcode program']}))
+  return (n, n, out)
 
 
 def _one(idxs, ops, names, proto, r, classes, out, seen_keys):
@@ -379,6 +423,11 @@ def run(ctx):
   progs = 0
   for n, ncls, bad in ores:
     progs += n
+    for key, what, rep in bad:
+      ctx.violation(key, what, rep)
+  nres = core.pmap(run_opcode_neighbours, [(i, ctx.pick(2, 3)) for i in range(len(pk.OPCODES))], chunksize=1)
+  for n_, _c, bad in nres:
+    progs += n_
     for key, what, rep in bad:
       ctx.violation(key, what, rep)
   ctx.add(states=S + progs, transitions=T + progs, traces_validated_against_impl=E + progs, item_cases=len(tasks),
